@@ -219,6 +219,30 @@ impl<'a> Judge<'a> {
       }
       (Some(m), None) => {
         let st = self.state(&m, t0, t1);
+        // A refresh that a stale serve asked for lands whenever its loader task gets to insert
+        // (a concurrent write, possibly over a newer insert), and its value's lifetime counts
+        // from the load, not from the landing: if such a load of this key has run and nobody
+        // has seen its value yet, a miss may be that value, already expired. Take it as the
+        // current value from here on.
+        if st == St::Live && self.never_evicts {
+          if let (Some(from), Some(ttl)) = (self.refresh_pending.get(&k).copied(), self.sc.base.ttl_ns) {
+            let seen: BTreeSet<u32> = h.evs.iter().filter(|x| x.inv < e.inv).flat_map(|x| super::oracle::reads_of(x)).filter(|r| r.0 == k).map(|r| r.1).collect();
+            let landed = h.loads.iter().find(|l| l.key == k && l.begin > from && l.end < e.ret && l.id != m.id && !seen.contains(&l.id) && !self.expired_ids.contains(&l.id));
+            if let Some(l) = landed {
+              let loaded_at = self.time_of_stamp_near(h, l.begin);
+              if loaded_at + ttl <= t1 {
+                let id = l.id;
+                let cost = l.cost;
+                self.expired_ids.insert(m.id);
+                let mut ne = self.new_entry(id, cost, Some(ttl), loaded_at, loaded_at);
+                ne.seen_dead = true;
+                self.expired_ids.insert(id);
+                self.model.insert(k, ne);
+                return;
+              }
+            }
+          }
+        }
         if st == St::Live && self.never_evicts {
           self.viol(
             "C12",
@@ -339,6 +363,12 @@ impl<'a> Judge<'a> {
     ne.ctr = got_ctr;
     self.model.insert(k, ne);
     true
+  }
+
+  /// virtual time at (or just before) an event stamp that is not itself an operation's
+  /// invocation stamp (a load's begin): the clock reading of the latest operation invoked before it
+  fn time_of_stamp_near(&self, h: &Hist, stamp: u64) -> u64 {
+    h.evs.iter().filter(|x| x.inv <= stamp).map(|x| x.now_ns_inv).max().unwrap_or(0)
   }
 
   fn time_of_stamp(&self, h: &Hist, stamp: u64) -> u64 {
